@@ -335,6 +335,8 @@ impl WalWriter {
                 format!("Failed to write entry size: {e}").into(),
             ))
         })?;
+        #[cfg(feature = "verif-hooks")]
+        crate::verif_hooks::crash_point("wal.write_entry.after_len", &self.path);
 
         // Write entry data
         self.file.write_all(&serialized).map_err(|e| {
@@ -342,6 +344,9 @@ impl WalWriter {
                 format!("Failed to write WAL entry: {e}").into(),
             ))
         })?;
+
+        #[cfg(feature = "verif-hooks")]
+        crate::verif_hooks::crash_point("wal.write_entry.after_body", &self.path);
 
         self.current_size += 4 + serialized.len() as u64;
         self.entry_count += 1;
@@ -410,6 +415,9 @@ impl WalWriter {
             ))
         })?;
 
+        #[cfg(feature = "verif-hooks")]
+        crate::verif_hooks::crash_point("wal.rotate.after_sync", &self.path);
+
         // Rename to timestamped file
         let timestamp = current_timestamp();
         let rotated_path = self
@@ -420,6 +428,9 @@ impl WalWriter {
                 format!("Failed to rotate WAL: {e}").into(),
             ))
         })?;
+
+        #[cfg(feature = "verif-hooks")]
+        crate::verif_hooks::crash_point("wal.rotate.after_rename", &self.path);
 
         // Create new WAL file
         self.file = OpenOptions::new()
@@ -434,6 +445,9 @@ impl WalWriter {
 
         self.current_size = 0;
         self.entry_count = 0;
+
+        #[cfg(feature = "verif-hooks")]
+        crate::verif_hooks::crash_point("wal.rotate.after_reopen", &self.path);
 
         Ok(())
     }
@@ -774,6 +788,8 @@ impl<T: Serialize + for<'de> Deserialize<'de> + Clone + PartialEq + Send + Sync 
             let header_size = (header_data.len() as u32).to_le_bytes();
             file.write_all(&header_size)?;
             file.write_all(&header_data)?;
+            #[cfg(feature = "verif-hooks")]
+            crate::verif_hooks::crash_point("checkpoint.after_header", &temp_path);
 
             // Write snapshot data
             file.write_all(&snapshot_data)?;
@@ -785,12 +801,18 @@ impl<T: Serialize + for<'de> Deserialize<'de> + Clone + PartialEq + Send + Sync 
             })?;
         }
 
+        #[cfg(feature = "verif-hooks")]
+        crate::verif_hooks::crash_point("checkpoint.after_tmp_sync", &temp_path);
+
         // Atomic rename
         std::fs::rename(&temp_path, &snapshot_path).map_err(|e| {
             P2PError::Storage(StorageError::Database(
                 format!("Failed to rename snapshot: {e}").into(),
             ))
         })?;
+
+        #[cfg(feature = "verif-hooks")]
+        crate::verif_hooks::crash_point("checkpoint.after_rename", &snapshot_path);
 
         // Clean up old WAL files
         self.cleanup_old_wal_files(last_transaction_id).await?;
@@ -1248,6 +1270,8 @@ impl<T: Serialize + for<'de> Deserialize<'de> + Clone + PartialEq + Send + Sync 
                         format!("Failed to remove old WAL: {e}").into(),
                     ))
                 })?;
+                #[cfg(feature = "verif-hooks")]
+                crate::verif_hooks::crash_point("checkpoint.after_wal_delete", &wal_path);
             }
         }
 
@@ -1305,6 +1329,8 @@ impl<T: Serialize + for<'de> Deserialize<'de> + Clone + PartialEq + Send + Sync 
                         format!("Failed to remove old snapshot: {e}").into(),
                     ))
                 })?;
+                #[cfg(feature = "verif-hooks")]
+                crate::verif_hooks::crash_point("checkpoint.after_snapshot_delete", snapshot_path);
             }
         }
 
